@@ -39,3 +39,172 @@ pub(crate) fn clock_micros() -> Option<u64> {
     let g = CLOCK_MICROS.load(Ordering::SeqCst);
     (g != NO_OVERRIDE).then_some(g)
 }
+
+// ---- H2: reconciliation parameters and a reference ordered-map backend ----------------------
+
+thread_local! {
+    static THREAD_SYNC_CONFIG: Cell<Option<(usize, usize)>> = const { Cell::new(None) };
+}
+
+/// Set (or clear) the `(max_set_size, split_factor)` used by `SyncConfig::default()` on the
+/// calling thread.
+pub fn set_thread_sync_config(value: Option<(usize, usize)>) {
+    THREAD_SYNC_CONFIG.with(|c| c.set(value));
+}
+
+pub(crate) fn sync_config() -> Option<(usize, usize)> {
+    THREAD_SYNC_CONFIG.with(|c| c.get())
+}
+
+/// A plain ordered map implementing the (private) `ranger::Store` interface with the ordered-map
+/// definitions of its primitives, driven by the crate's own `process_message` and `put`.
+#[derive(Debug, Default)]
+pub struct MapStore {
+    entries: std::collections::BTreeMap<crate::sync::RecordIdentifier, crate::SignedEntry>,
+}
+
+impl crate::store::PublicKeyStore for MapStore {
+    fn public_key(&self, id: &[u8; 32]) -> Result<iroh::PublicKey, iroh::KeyParsingError> {
+        iroh::PublicKey::from_bytes(id)
+    }
+}
+
+fn range_contains(
+    range: &crate::ranger::Range<crate::sync::RecordIdentifier>,
+    t: &crate::sync::RecordIdentifier,
+) -> bool {
+    use std::cmp::Ordering;
+    match range.x().cmp(range.y()) {
+        Ordering::Equal => true,
+        Ordering::Less => range.x() <= t && t < range.y(),
+        Ordering::Greater => range.x() <= t || t < range.y(),
+    }
+}
+
+impl crate::ranger::Store<crate::SignedEntry> for MapStore {
+    type Error = std::convert::Infallible;
+    type RangeIterator<'a> = std::vec::IntoIter<Result<crate::SignedEntry, Self::Error>>;
+    type ParentIterator<'a> = std::vec::IntoIter<Result<crate::SignedEntry, Self::Error>>;
+
+    fn get_first(&mut self) -> Result<crate::sync::RecordIdentifier, Self::Error> {
+        Ok(self.entries.keys().next().cloned().unwrap_or_default())
+    }
+
+    fn get_fingerprint(
+        &mut self,
+        range: &crate::ranger::Range<crate::sync::RecordIdentifier>,
+    ) -> Result<crate::ranger::Fingerprint, Self::Error> {
+        use crate::ranger::RangeEntry;
+        let mut fp = crate::ranger::Fingerprint::empty();
+        for e in self.entries.values().filter(|e| range_contains(range, e.id())) {
+            fp ^= e.as_fingerprint();
+        }
+        Ok(fp)
+    }
+
+    fn entry_put(&mut self, entry: crate::SignedEntry) -> Result<(), Self::Error> {
+        self.entries.insert(entry.id().clone(), entry);
+        Ok(())
+    }
+
+    fn get_range(
+        &mut self,
+        range: crate::ranger::Range<crate::sync::RecordIdentifier>,
+    ) -> Result<Self::RangeIterator<'_>, Self::Error> {
+        let v: Vec<_> = self
+            .entries
+            .values()
+            .filter(|e| range_contains(&range, e.id()))
+            .cloned()
+            .map(Ok)
+            .collect();
+        Ok(v.into_iter())
+    }
+
+    fn prefixes_of(
+        &mut self,
+        key: &crate::sync::RecordIdentifier,
+    ) -> Result<Self::ParentIterator<'_>, Self::Error> {
+        let v: Vec<_> = self
+            .entries
+            .values()
+            .filter(|e| {
+                e.id().namespace() == key.namespace()
+                    && e.id().author() == key.author()
+                    && key.key().starts_with(e.id().key())
+            })
+            .cloned()
+            .map(Ok)
+            .collect();
+        Ok(v.into_iter())
+    }
+
+    fn remove_prefix_filtered(
+        &mut self,
+        prefix: &crate::sync::RecordIdentifier,
+        predicate: impl Fn(&crate::sync::Record) -> bool,
+    ) -> Result<usize, Self::Error> {
+        let before = self.entries.len();
+        self.entries.retain(|id, e| {
+            !(id.namespace() == prefix.namespace()
+                && id.author() == prefix.author()
+                && id.key().starts_with(prefix.key())
+                && predicate(e.entry().record()))
+        });
+        Ok(before - self.entries.len())
+    }
+}
+
+impl MapStore {
+    /// An empty store.
+    pub fn new() -> Self {
+        Self::default()
+    }
+
+    /// All entries in key order.
+    pub fn entries(&self) -> Vec<crate::SignedEntry> {
+        self.entries.values().cloned().collect()
+    }
+
+    /// `ranger::Store::put` (newest wins, prefix deletion); `Some(removed)` if inserted.
+    pub fn put(&mut self, entry: crate::SignedEntry) -> Option<usize> {
+        use crate::ranger::{InsertOutcome, Store};
+        match Store::put(self, entry).expect("infallible") {
+            InsertOutcome::Inserted { removed } => Some(removed),
+            InsertOutcome::NotInserted => None,
+        }
+    }
+
+    /// `ranger::Store::initial_message`.
+    pub fn initial_message(&mut self) -> crate::sync::ProtocolMessage {
+        use crate::ranger::Store;
+        Store::initial_message(self).expect("infallible")
+    }
+
+    /// The crate's `process_message` on this backend, with the validation a `Replica` applies
+    /// (`validate_empty` and `validate_entry` for `namespace` at clock `now`). Returns the reply
+    /// and the entries that were inserted.
+    pub async fn process_message(
+        &mut self,
+        namespace: crate::NamespaceId,
+        message: crate::sync::ProtocolMessage,
+    ) -> (Option<crate::sync::ProtocolMessage>, Vec<crate::SignedEntry>) {
+        use crate::ranger::Store;
+        let inserted = std::cell::RefCell::new(Vec::new());
+        let reply = Store::process_message(
+            self,
+            &Default::default(),
+            message,
+            |store, entry, content_status| {
+                crate::sync::verif_validate(store, namespace, entry, content_status)
+            },
+            async |_store, entry, _content_status| {
+                inserted.borrow_mut().push(entry);
+            },
+            async |_entry| crate::ContentStatus::Missing,
+        )
+        .await
+        .expect("infallible");
+        (reply, inserted.into_inner())
+    }
+}
